@@ -203,13 +203,15 @@ def run(ctx):
     module_file_attrs_scope(ctx, "R04-j")
     reordering_spares_skipped_items(ctx, "R04-k")
     generated_marker_is_sought_in_the_whole_file(ctx, "R04-l")
+    echoed_text_is_the_text_as_read(ctx, "R04-m")
 
 
 def spelling(ctx, rid):
     p, r = ctx.p, ctx.r
-    r.rule(rid, "decision table of utils::is_skip: Word ⇒ path ∈ {rustfmt::skip, rustfmt_skip}; List ⇒ cfg_attr ∧ len 2 ∧ "
-                "is_skip_nested(second element); anything else false; is_skip_nested: MetaItem ⇒ is_skip, Lit ⇒ false; "
-                "contains_skip = any(meta().map_or(false, is_skip))")
+    r.rule(rid, "decision table of utils::is_skip: Word ⇒ path ∈ {rustfmt::skip, rustfmt_skip}; List ⇒ cfg_attr ∧ some element "
+                "after the predicate satisfies is_skip_nested (`cfg_attr(rustfmt, rustfmt::skip, allow(dead_code))` carries the "
+                "skip just as `cfg_attr(rustfmt, rustfmt::skip)` does — a test of `len == 2 ∧ second element` misses it); anything "
+                "else false; is_skip_nested: MetaItem ⇒ is_skip, Lit ⇒ false; contains_skip = any(meta().map_or(false, is_skip))")
     f = p.named("is_skip", within="rustfmt_nightly::utils")
     if f is None:
         r.undecidable(rid, "utils::is_skip not found")
@@ -240,18 +242,22 @@ def spelling(ctx, rid):
         if "ThinVec::<T>::len(arg1.kind as List.0)" in key and (" Eq 2" in key or " Ne 2" in key):
             return ("len2", val if " Eq 2" in key else (not val))
         if key.startswith("utils::is_skip_nested(arg1.kind as List.0["):
-            return ("nested", val)
+            return ("nested1", val)
+        if re.match(r"^std::iter::Iterator::any\(std::iter::Iterator::skip\(core::slice::<impl \[T\]>::iter\(arg1\.kind as List\.0\),1\),"
+                    r"fn:utils::is_skip_nested\)$", key):
+            return ("nested_any", val)
         return None
 
     def spec(a):
         if a["kind"] == "Word":
             return a["eq_skip"] or a["eq_depr"]
         if a["kind"] == "List":
-            return a["cfg"] and a["len2"] and a["nested"]
+            return a["cfg"] and a["nested_any"]
         return False
     Bv = [False, True]
     res = check_table(paths, atom_of, spec, lambda pa: bool_outcome(pa.ret, atom_of) if pa.end == "ret" else None,
-                      {"kind": ["Word", "List", "other"], "eq_skip": Bv, "eq_depr": Bv, "cfg": Bv, "len2": Bv, "nested": Bv})
+                      {"kind": ["Word", "List", "other"], "eq_skip": Bv, "eq_depr": Bv, "cfg": Bv, "len2": Bv, "nested1": Bv,
+                       "nested_any": Bv})
     r.cells(rid, res["cells"])
     bad = {}
     for (assign, exp, got, path, unknown) in res["deviations"]:
@@ -262,7 +268,7 @@ def spelling(ctx, rid):
         r.undecidable(rid, "is_skip: %d cells not covered" % len(res["uncovered"]))
     for k, (assign, exp, got, unknown) in list(sorted(bad.items(), key=str))[:4]:
         r.violation(rid, "is_skip: %s" % ",".join("%s=%s" % kv for kv in sorted(assign.items())),
-                    "returns %s where the spelling table {rustfmt::skip, rustfmt_skip, cfg_attr(_, skip)} gives %s%s" % (
+                    "returns %s where the spelling table {rustfmt::skip, rustfmt_skip, cfg_attr(_, .., skip, ..)} gives %s%s" % (
                         got, exp, (" under %s" % unknown) if unknown else ""), ["%s:%d" % (f.file, f.line)])
     # the word comparison must be against the literal spellings (checked below) and the cfg_attr test against sym::cfg_attr
     # the two spellings
@@ -915,3 +921,39 @@ def generated_marker_is_sought_in_the_whole_file(ctx, rid):
                         "the module's span" % ("comes from a span-limited snippet (%s)" % ", ".join(sorted(set(snippets)))
                                                if snippets else "does not derive from SourceFile::src"), [c.loc()])
     r.floor(rid, n, 1, "call sites of is_generated_file")
+
+
+def echoed_text_is_the_text_as_read(ctx, rid):
+    """R04-m: an opted-out text that is echoed is echoed byte for byte"""
+    p, r = ctx.p, ctx.r
+    r.rule(rid, "a text on standard input that opts out as a whole (inner skip attribute, disable_all_formatting) is answered by "
+                "echoing it: at every call of formatting::echo_back_stdin the argument is the text *as it was read* — the buffer "
+                "of Input::Text or the result of ParseSess::get_original_snippet — and derives from no source-map snippet "
+                "(SnippetProvider::entire_snippet, snippet_provider, span_to_snippet): rustc's SourceMap stores a file with "
+                "every CRLF turned into LF, so echoing its copy changes every line terminator of a text that asked to be left alone")
+    sites = [c for c in p.all_calls() if c.name.endswith("formatting::echo_back_stdin") and c.fn.crate == "rustfmt_nightly"]
+    for c in sites:
+        f = c.fn
+        d = f.derived_from(c.args[0][1][0]) if c.args and c.args[0][0] != "k" else {"calls": [], "fields": []}
+        fields = list(d["fields"]) + [(e[2], e[3], e[4]) for e in (c.args[0][1][1] if c.args and c.args[0][0] != "k" else [])
+                                      if isinstance(e, list) and e[0] == "f"]
+        normalised = sorted({short(x.name) for x in d["calls"] if re.search(r"entire_snippet|snippet_provider|span_to_snippet|::snippet$", x.name)})
+        as_read = any(x.name.endswith("ParseSess::get_original_snippet") for x in d["calls"]) or \
+            any(a and a.endswith("::Input") and v == "Text" for (a, v, fl) in fields)
+        ok = as_read and not normalised
+        if normalised and not as_read:
+            # the source-map copy may stand in where the text as read could not be had: on the None edge of get_original_snippet
+            from common import result_edges
+            for g in f.calls():
+                if g.name.endswith("ParseSess::get_original_snippet"):
+                    for e in result_edges(f, g):
+                        if e["err"] is not None and edge_dominates(f, (e["sw"], e["err"]), c.bb):
+                            ok = True
+        r.instance(rid, "%s: text handed to echo_back_stdin" % short(f.root or f.id), "ok" if ok else "violation", c.loc(),
+                   "as read=%s, source-map copies=%s" % (as_read, normalised))
+        if not ok:
+            r.violation(rid, "%s echoes a source-map copy of the input" % short(f.root or f.id),
+                        "the text handed to echo_back_stdin %s: `#![rustfmt::skip]` on standard input with CRLF line endings comes "
+                        "back with LF" % ("derives from %s" % ", ".join(normalised) if normalised else
+                                          "is neither Input::Text's buffer nor get_original_snippet's result"), [c.loc()])
+    r.floor(rid, len(sites), 2, "call sites of echo_back_stdin")
